@@ -10,6 +10,7 @@ import DM.Spec.Build
 import DM.Drv.Api
 import DM.Drv.Prune
 import DM.Drv.EncRun
+import DM.Drv.Plan
 open DM.Drv
 
 def dispatch (args : List String) : String :=
@@ -44,6 +45,9 @@ def dispatch (args : List String) : String :=
   | some r => r
   | none =>
   match encRunOp args with
+  | some r => r
+  | none =>
+  match optimizeOp args with
   | some r => r
   | none => "bad-op"
 
